@@ -80,6 +80,9 @@ def cases(tier: str, seed: int) -> list[dict]:
                 out.append({"kind": "elastic", "dim": 3, "et": et, "law": law, "ps": False, "mesh": mc})
             k += 1
             out.append({"kind": "thermal", "dim": 3, "et": et, "mesh": ["gmsh", "affine", "renumbered"][(k + r) % 3]})
+            if not et.startswith("TETRA"):
+                # tapered extrusion (frustum): prisms / hexas that are not affine images of the reference element
+                out.append({"kind": ["elastic", "thermal"][(k + r) % 2], "dim": 3, "et": et, "law": laws[(k + r) % 4], "ps": False, "mesh": "tapered"})
         for et in gm.ET_1D:
             out.append({"kind": "thermal", "dim": 1, "et": et, "mesh": "line"})
         # mixed element groups
@@ -162,7 +165,8 @@ def build_mesh(case: dict, rng: np.random.Generator):
             if dim == 2:
                 mesh = gm.mesh2d(poly, et, ms, organised=(mc == "organised"))
             else:
-                mesh = gm.mesh3d(poly, et, h, int(rng.integers(1, 3)), ms)
+                # first-order volumes need >= 2 layers to own interior nodes
+                mesh = gm.mesh3d(poly, et, h, int(rng.integers(2, 4)) if order == 1 else int(rng.integers(1, 3)), ms)
     area, _ = gm.shoelace(poly)
     measure = abs(area) * (h if dim == 3 else 1.0)
 
@@ -182,6 +186,13 @@ def build_mesh(case: dict, rng: np.random.Generator):
         mesh = gm.rebuild(mesh, coord=X)
         measure *= abs(np.linalg.det(A))
         info["detA"] = float(np.linalg.det(A))
+    elif mc == "tapered":
+        al = float(rng.uniform(0.15, 0.5)) * float(rng.choice([-1, 1])) / h
+        X = X0.copy()
+        X[:, :2] *= (1 + al * X0[:, 2])[:, None]
+        mesh = gm.rebuild(mesh, coord=X)
+        measure = abs(area) * (h + al * h**2 + al**2 * h**3 / 3)
+        info["taper"] = al
     elif mc == "renumbered":
         perm = rng.permutation(len(X0))
         mesh = gm.rebuild(mesh, perm=perm)
